@@ -17,7 +17,7 @@ LEVEL = "exploration"
 SHARDS = {"quick": 8, "thorough": 16}
 TIMEOUT = {"quick": 900, "thorough": 7200}
 THOROUGH_MULT = 20   # thorough budgets below are multiplied by this (sized for roughly five minutes on 16 cores)
-REQUIRED = {"request_size": 50, "kernel_request_size": 5, "prng_reset": 50, "tape_replay": 50, "bit_variation": 5, "no_repeat": 5, "mixed_history": 20, "config_request_size": 90, "import_fault": 20}
+REQUIRED = {"request_size": 50, "kernel_request_size": 5, "prng_reset": 50, "tape_replay": 50, "bit_variation": 5, "no_repeat": 5, "mixed_history": 20, "config_request_size": 90, "import_fault": 20, "concurrent_fresh": 40}
 ANCHORS = ['bip39:mnemonic_from_entropy_bits', 'base_wallet:BaseWallet.new_wallet', 'base_wallet:BaseWallet.from_entropy_bits']
 RULE = ("histories of consecutive new_wallet / mnemonic_from_entropy_bits calls over all five lengths in one process, "
         "interleaved with random.seed / random.random noise and wall-clock changes; four observers: in-process request size "
@@ -211,6 +211,93 @@ def judge_import_fault(ctx, case):
                   [{k: r[k] for k in r} for r in runs], cls="importfault|%s|%s|%d" % (tag, rec["api"], rec["words"]), outcome=outcome,
                   mech="C08.import_fault.prng_wallet")
     ctx.extra["import_fault_refusals_during_import"] = ctx.extra.get("import_fault_refusals_during_import", 0) + out.get("refused_during_import", 0)
+
+
+class ThreadTap:
+    """os.urandom / random._urandom interposer that passes real bytes through and remembers WHICH thread got which bytes."""
+
+    def __init__(self):
+        self.served = []            # (thread ident, bytes)  (list.append is atomic)
+
+    def __enter__(self):
+        import threading
+        real_os, real_rnd = os.urandom, random._urandom
+        self._saved = (real_os, real_rnd)
+
+        def door(real):
+            def f(n):
+                out = real(n)
+                self.served.append((threading.get_ident(), out))
+                return out
+            return f
+        os.urandom = door(real_os)
+        random._urandom = door(real_rnd)
+        return self
+
+    def __exit__(self, *exc):
+        os.urandom, random._urandom = self._saved
+        return False
+
+    def of(self, ident):
+        return b"".join(b for i, b in self.served if i == ident)
+
+
+PREEMPT_FILES = ("bip39", "base_wallet", "paper_wallet")
+
+
+def judge_concurrent(ctx, case):
+    """Two threads create fresh wallets; thread A is parked at its k-th statement inside bip39.py / base_wallet.py, thread B
+    creates its wallet to completion, A resumes (k sweeps every statement boundary A executes: each run is one CHOSEN
+    interleaving).  Each wallet must be exactly what the same code makes, single-threaded, of the OS bytes that were served
+    to ITS OWN thread (replayed from a tape) - entropy that is zeroed, taken over from, or shared with the other thread
+    shows as a mismatch - and the two wallets must differ."""
+    import threading
+    api_a, api_b, La, Lb = case["api_a"], case["api_b"], case["words_a"], case["words_b"]
+    idents = {}
+
+    def mk(who, api, L):
+        def f():
+            idents[who] = threading.get_ident()
+            return _call(api, L)
+        return f
+    with ThreadTap() as tap0:
+        r0 = inject.run_preempted(mk("a", api_a, La), None, None, PREEMPT_FILES)
+    if not tap0.served:
+        ctx.reach("concurrent_not_applicable")      # code bypasses the Python-level doors: nothing to attribute
+        return None
+    n_lines = r0["count"]
+    stride = case.get("stride", 1)
+    points = 0
+    for k in range(1 + case.get("offset", 0) % stride, n_lines + 1, stride):
+        idents.clear()
+        with ThreadTap() as tap:
+            r = inject.run_preempted(mk("a", api_a, La), mk("b", api_b, Lb), k, PREEMPT_FILES)
+        c = dict(case, preempt_at_statement=k, site=r["site"])
+        if not r["finished"]:
+            ctx.note_inconclusive("concurrent wallet creation %s did not finish" % c)
+            return None
+        points += 1
+        for who, e in r["errors"]:
+            ctx.judge("concurrent_fresh", False, dict(c, thread=who), "wallet", e, cls="conc|raised", mech="C08.concurrent.raised")
+        if r["errors"]:
+            continue
+        bad = []
+        for who, api, L in (("a", api_a, La), ("b", api_b, Lb)):
+            mine = tap.of(idents.get(who))
+            with inject.EntropyTap("tape", tape=mine + b"\x00" * 0) as t2:
+                try:
+                    want = _call(api, L)
+                except RuntimeError:
+                    want = None
+            if want is None:
+                bad.append(("thread_%s_consumed_fewer_own_bytes_than_alone" % who, "replayable", len(mine)))
+            elif r[who] != want:
+                bad.append(("thread_%s_wallet_is_not_made_of_its_own_os_bytes" % who, want, r[who]))
+        if r["a"] == r["b"]:
+            bad.append(("two_fresh_wallets_coincide", "different", r["a"]))
+        ctx.judge("concurrent_fresh", not bad, c, "each wallet = f(its own OS bytes); wallets differ", bad[:2],
+                  cls="conc|%s/%d|%s/%d" % (api_a, La, api_b, Lb), mech="C08.concurrent." + (bad[0][0] if bad else ""))
+    ctx.extra["concurrent_interleavings_enumerated"] = ctx.extra.get("concurrent_interleavings_enumerated", 0) + points
 
 
 def _call(api, L):
@@ -436,6 +523,12 @@ def run(ctx):
     apis = ["new_wallet", "bits", "from_entropy_bits"]
     if ctx.shard == 0:
         judge_kernel(ctx, k=2 if not ctx.thorough else 20)
+    conc = [("bits", "bits", 12, 12), ("bits", "bits", 24, 12), ("bits", "bits", 12, 24), ("bits", "new_wallet", 24, 24), ("new_wallet", "bits", 15, 18),
+            ("from_entropy_bits", "from_entropy_bits", 21, 21), ("new_wallet", "new_wallet", 12, 12), ("bits", "from_entropy_bits", 18, 15)]
+    for ci, (aa, ab, la, lb) in enumerate(conc * (1 if not ctx.thorough else 6)):
+        if ctx.mine(ci):
+            judge_concurrent(ctx, {"api_a": aa, "api_b": ab, "words_a": la, "words_b": lb, "stride": 1 if aa == "bits" or ctx.thorough else 3,
+                                   "offset": rnd.randrange(0, 3)})
     fault_cells = [(e, st) for e in ("NotImplementedError", "OSError") for st in (True, False)]
     for fi, (e, st) in enumerate(fault_cells):
         if ctx.mine(fi + 1):
@@ -494,6 +587,10 @@ def replay(ctx, monitor, case):
         judge_mixed_history(ctx, case)
     elif monitor == "kernel_request_size":
         judge_kernel(ctx, 2)
+    elif monitor == "concurrent_fresh":
+        for k_ in ("preempt_at_statement", "site", "thread"):
+            case.pop(k_, None)
+        judge_concurrent(ctx, case)
     elif monitor == "import_fault":
         case.pop("api", None)
         case.pop("words", None)
